@@ -244,6 +244,17 @@ def _h_c14(rec):
 HANDLERS["c14"] = _h_c14
 HANDLERS["c09"] = _grid_handler("rt_c09", "C09 Jacobian-structure")
 HANDLERS["c04"] = _grid_handler("rt_c04", "C04 quadrature / goodness-of-fit")
+def _h_combinators(rec):
+    prop = rec["property"]
+    fails = rt.rt_c08_definitions(first_only=False)
+    if not fails and prop in ("C01", "C02"):
+        fails = rt.rt_zoo_B(prop, first_only=True)
+    if fails:
+        return True, fails[0]["what"]
+    return False, "abstract-children counter-model has no direct concretisation; the combinator definitions / zoo contract-B checks passed on real objects"
+
+
+HANDLERS["combinators"] = _h_combinators
 HANDLERS["losses"] = _grid_handler("rt_c17", "C17 loss re-evaluation")
 HANDLERS["transformed"] = _grid_handler("rt_c03", "C03 change-of-variables")
 HANDLERS["merge_transforms"] = _grid_handler("rt_c03", "C03 change-of-variables")
